@@ -176,10 +176,17 @@ class Post:
         self.nsites = 0
 
 
-def compute_posts(ctx, key):
+def compute_posts(ctx, key, spec=()):
     """{discriminant value or None: Post}; {} when the return value is not built at explicit sites"""
     body = ctx.prog.bodies[key]
-    it = ctx.top_interp(key)
+    if spec:
+        E = State()
+        for (pi, d) in spec:
+            E.doms[("discr", ("ld", (("L", pi, key), ()), "entry"))] = Dom(d, d)
+        it = I.Interp(ctx, body, E)
+        it.run()
+    else:
+        it = ctx.top_interp(key)
     if it is None:
         return {}
     ret_ty = body.locals[0]["t"]
